@@ -1,4 +1,5 @@
 import YardlProofs.Proto
+import YardlProofs.ProtoMatlab
 
 /-!
 # C07 — Protocol step order is enforced by generated readers and writers
@@ -9,7 +10,8 @@ against four specification machines with descriptive positions. For **every** pr
 as adversarial parameters — an implementation run is accepted iff the specification run is, and
 they end in corresponding positions:
 
-* `cpp_writer_iff`, `py_writer_iff`, `cpp_reader_iff`, `py_reader_iff`.
+* `cpp_writer_iff`, `py_writer_iff`, `cpp_reader_iff`, `py_reader_iff`, `matlab_writer_iff`, `matlab_reader_iff` (the MATLAB machines are the
+  ones denoted by the method tables `harness/py/matlabproto.py` reads out of the generated `.m` files, compared with `matWriterRows` / `matReaderRows`).
 
 The specification machines are the readable statement of "steps in declaration order, non-stream
 steps once, stream steps any number of times then ended/exhausted, close only at the end":
@@ -83,5 +85,28 @@ example : runPR (pyR ex) (0, false) [.read 0, .read 1, .exhaust 1, .read 2, .exh
 example : runPR (pyR ex) (0, false) [.read 0, .read 1, .read 2] = none := by decide
 example : runPR (pyR ex) (0, false) [.read 0, .read 1, .abandon 1, .read 2] = none := by decide
 example : runPR (pyR ex) (0, false) [.read 0, .read 1, .abandon 1] = some (3, true) := by decide
+
+/-! ### MATLAB (never executed here: tied by reading the method tables out of the generated `.m` files) -/
+
+/-- the writer the table of a generated `<P>WriterBase.m` denotes accepts exactly the call sequences of the step-order specification (the C++
+    discipline: explicit `end_<step>`), ending in the corresponding position — for every protocol shape and every call sequence -/
+theorem matlab_writer_iff (p : Shape) (ops : List WOp) :
+    (runWS (specWcpp p) ⟨0, false⟩ ops).map (·.k) = runW (matW (matWriterRows p)) 0 ops := by
+  rw [runW_congr (matW (matWriterRows p)) (cppW p) (matW_eq_cppW p) ops 0]
+  exact cpp_writer_iff p ops
+
+/-- … and the reader table of `<P>ReaderBase.m` (`read_<step>`, `has_<step>` ending a stream when it answers false, `close`) is its specification -/
+theorem matlab_reader_iff (p : Shape) (ops : List MROp) :
+    runMR (matR (matReaderRows p)) 0 ops = runMR (specRmat p) 0 ops :=
+  runMR_congr _ _ (matR_eq_spec p) ops 0
+
+/-- the reader specification says what the property says: close only after the last step; a step out of order is refused -/
+theorem spec_matlab_reader (p : Shape) (k i : Nat) (more : Bool) :
+    ((specRmat p k .close).isSome ↔ k = p.length) ∧ (i ≠ k → specRmat p k (.read i) = none ∧ specRmat p k (.has i more) = none) := by
+  refine ⟨by simp [specRmat], fun h => ⟨by simp [specRmat, h], by simp [specRmat, h]⟩⟩
+
+example : runMR (matR (matReaderRows [false, true, false])) 0 [.read 0, .has 1 true, .read 1, .has 1 false, .read 2, .close] = some 3 := by decide
+example : runMR (matR (matReaderRows [false, true, false])) 0 [.read 0, .read 2] = none := by decide
+
 
 end Yardl.C07
